@@ -51,6 +51,72 @@ pub fn j_table(which: u64, leap: &LeapTable, out: &mut Local) {
                 }
                 Ok("reverse + index consistent".into())
             }
+            3 => {
+                // forward adaptors on a partially consumed iterator: positions are relative to what was already yielded
+                // (nth, skip, step_by, take, count, last are all defined through next(); an override must agree)
+                let v: Vec<LeapSecond> = LatestLeapSeconds::default().collect();
+                let n = v.len();
+                for used in [0usize, 1, 2, 5, 14, n - 1, n] {
+                    for k in [0usize, 1, 2, 3, 7, 27, 41, 42, 100] {
+                        let fresh = || {
+                            let mut it = LatestLeapSeconds::default();
+                            for _ in 0..used {
+                                it.next();
+                            }
+                            it
+                        };
+                        let want_nth = v.get(used + k).copied();
+                        if fresh().nth(k) != want_nth {
+                            return Err(format!("after {used} items nth({k}) is not item {}", used + k));
+                        }
+                        if fresh().skip(k).next() != want_nth {
+                            return Err(format!("after {used} items skip({k}).next() is not item {}", used + k));
+                        }
+                        let mut it = fresh();
+                        let first = it.nth(k);
+                        if first.is_some() && it.next() != v.get(used + k + 1).copied() {
+                            return Err(format!("after {used} items nth({k}) leaves the iterator at the wrong position"));
+                        }
+                        if fresh().count() != n.saturating_sub(used) || fresh().last() != if used < n { v.last().copied() } else { None } {
+                            return Err(format!("after {used} items count()/last() are wrong"));
+                        }
+                        if k >= 1 && k <= 7 {
+                            let stepped: Vec<LeapSecond> = fresh().step_by(k).take(n + 1).collect();
+                            let want: Vec<LeapSecond> = v.iter().skip(used).step_by(k).copied().collect();
+                            if stepped != want {
+                                return Err(format!("after {used} items step_by({k}) yields {} items, not the expected {}", stepped.len(), want.len()));
+                            }
+                            let taken: Vec<LeapSecond> = fresh().take(k).collect();
+                            if taken != v.iter().skip(used).take(k).copied().collect::<Vec<_>>() {
+                                return Err(format!("after {used} items take({k}) differs"));
+                            }
+                        }
+                    }
+                }
+                // the same on the file provider
+                let f = LeapSecondsFile::from_path(format!("{}/data/leap-seconds.list", crate::report::repo())).map_err(|e| format!("{e}"))?;
+                let fv: Vec<LeapSecond> = f.clone().collect();
+                for used in [0usize, 1, 5, 27, 28] {
+                    for k in [0usize, 1, 3, 27, 28] {
+                        let mut it = f.clone();
+                        for _ in 0..used {
+                            it.next();
+                        }
+                        if it.nth(k) != fv.get(used + k).copied() {
+                            return Err(format!("file provider: after {used} items nth({k}) is not item {}", used + k));
+                        }
+                        let mut it = f.clone();
+                        for _ in 0..used {
+                            it.next();
+                        }
+                        let stepped: Vec<LeapSecond> = it.step_by(k + 1).take(40).collect();
+                        if stepped != fv.iter().skip(used).step_by(k + 1).copied().collect::<Vec<_>>() {
+                            return Err(format!("file provider: after {used} items step_by({}) differs", k + 1));
+                        }
+                    }
+                }
+                Ok("adaptors on partially consumed iterators consistent".into())
+            }
             _ => {
                 // the shipped IERS file through the file provider
                 let f = LeapSecondsFile::from_path(format!("{}/data/leap-seconds.list", crate::report::repo())).map_err(|e| format!("{e}"))?;
@@ -92,7 +158,8 @@ pub fn j_utc(u: i128, leap: &LeapTable, out: &mut Local) {
     let want = leap.utc_to_tai(u);
     let args = vec![enc(u)];
     let r = guard(|| {
-        let e = Epoch::from_duration(mk(u), TimeScale::UTC);
+        // (on alternate lattice points through the named constructor)
+        let e = if u % 2 == 0 { Epoch::from_duration(mk(u), TimeScale::UTC) } else { Epoch::from_utc_duration(mk(u)) };
         let t = e.to_time_scale(TimeScale::TAI);
         (t, e.to_tai_duration(), t.to_time_scale(TimeScale::UTC), e.to_utc_duration())
     });
@@ -215,9 +282,16 @@ pub fn j_accessor(c: i128, leap: &LeapTable, out: &mut Local) {
             }
             // with the non-IERS entries included the answer is pinned only in the IERS era (same as IERS-only); before
             // 1972 it may be None or any pre-IERS offset below 10 s
+            // ... and, whatever those entries are, it is the offset of the LAST entry of the library's own table at or
+            // before the epoch (not the largest, not the first): judged away from the 10 s after each such entry, where
+            // the TAI / UTC indexing of the timestamp matters
+            let own: Vec<(f64, f64)> = LatestLeapSeconds::default().map(|l| (l.timestamp_tai_s, l.delta_at)).collect();
+            let cs = c as f64 / 1e9;
+            let near_any = own.iter().any(|(t, _)| cs >= *t - 1.0 && cs < *t + 11.0);
+            let last_own = own.iter().filter(|(t, _)| *t <= cs).last().map(|(_, d)| *d);
             let all_ok = match want_iers {
                 Some(_) => b == want_iers,
-                None => b.map(|x| (0.0..10.0).contains(&x)).unwrap_or(true),
+                None => b.map(|x| (0.0..10.0).contains(&x)).unwrap_or(true) && (near_any || b == last_own),
             };
             if a != want_iers {
                 let rel = if near_entry(leap, c, 1).is_some() { "within-1s-of-entry" } else { "elsewhere" };
@@ -293,6 +367,20 @@ pub fn make_providers(leap: &LeapTable) -> Providers {
         match LeapSecondsFile::from_path(&path) {
             Ok(f) => files.push((name.to_string(), f, t)),
             Err(e) => files.push((format!("{name}:REJECTED:{e}"), LeapSecondsFile::default(), t)),
+        }
+    }
+    // a file that announces a NEGATIVE leap second (37 -> 36 at 2030-01-01, back to 37 at 2033-07-01): valid IERS format;
+    // the offset in force is that of the last entry, not the largest one
+    {
+        let mut neg = leap.entries.clone();
+        neg.push((days1900(2030, 1, 1) * 86_400, 36));
+        neg.push((days1900(2033, 7, 1) * 86_400, 37));
+        let path = format!("{dir}/negative_30.list");
+        std::fs::write(&path, render(&neg, 0)).expect("write provider file");
+        let t = LeapTable { entries: neg };
+        match LeapSecondsFile::from_path(&path) {
+            Ok(f) => files.push(("negative_30".to_string(), f, t)),
+            Err(e) => files.push((format!("negative_30:REJECTED:{e}"), LeapSecondsFile::default(), t)),
         }
     }
     Providers { files }
@@ -446,12 +534,18 @@ pub fn run(rep: &mut Report) {
     let leap = load();
     rep.rule = "built-in table, reverse iteration, indexing and the file provider against the IERS list parsed from data/leap-seconds.list and naif0012.txt; UTC and TAI instants: every whole second from -45 s to +85 s around each of the 28 IERS and 14 SOFA entries x sub-second offsets {0, 1 ns, 1/2 s, 1 s - 1 ns}, windows of every nanosecond round each entry, the duration lattice within +-10 500 years; stateright BFS over sequences mixing conversions among UTC/TAI/GPST/TT with +- steps from states next to four table entries; providers: files written for every prefix of the IERS list (0..28 entries) and 5 format variants x the instants x scales. Oracle: table lookup on integers; TAI->UTC defined as the inverse of UTC->TAI, inside an inserted interval only the two holding values are accepted (the current convention is known finding D37). Non-trivial = within 90 s of an entry.".into();
     rep.assumptions = vec!["the two shipped data files agree with each other and with the 28-entry digest in the harness (checked at start-up; a mismatch is a machinery error)".into()];
-    sweep(rep, "c06.table", 3, |i, out| j_table(i, &leap, out));
+    sweep(rep, "c06.table", 4, |i, out| j_table(if i == 3 { 3 } else if i == 2 { 4 } else { i }, &leap, out));
+    // the UTC constructors from a float count or a duration: a UTC epoch with exactly that elapsed UTC time
+    let cf = ctor_floats();
+    let ncf = cf.len() as u64;
+    sweep(rep, "c06.float_ctor", 2 * ncf, |i, out| {
+        j_scale_float_ctor("c06.float_ctor", TimeScale::UTC, (i / ncf) as usize, cf[(i % ncf) as usize], out);
+    });
     let lw = Some((-45i64, 85i64));
-    let mut utc = lattice::el(TimeScale::UTC, if deep { 64 } else { 8 }, lw);
-    let mut tai = lattice::el(TimeScale::TAI, if deep { 64 } else { 8 }, lw);
+    let mut utc = lattice::el(TimeScale::UTC, if deep { 8192 } else { 8 }, lw);
+    let mut tai = lattice::el(TimeScale::TAI, if deep { 8192 } else { 8 }, lw);
     // every nanosecond within +-W of each entry (UTC side) and of each entry's TAI instant
-    let w: i128 = if deep { 30_000 } else { 3000 };
+    let w: i128 = if deep { 300_000 } else { 3000 };
     for (ts, d) in &leap.entries {
         for o in -w..=w {
             utc.push(*ts as i128 * NS + o);
@@ -496,9 +590,9 @@ pub fn run(rep: &mut Report) {
     rep.bound("providers", prov.files.len() as u64);
     // provider lattice: whole seconds around entries + sub-second edge
     let mut pl: Vec<i128> = lattice::el(TimeScale::TAI, 2, Some((-40, 40))).into_iter().filter(|v| q == false || v.rem_euclid(NS) == 0 || v.rem_euclid(NS) == NS - 1).collect();
-    for y in [2035i64, 2040, 2100, 3000] {
+    for (y, m) in [(2035i64, 1i64), (2040, 1), (2100, 1), (3000, 1), (2030, 1), (2033, 7)] {
         for o in [-41 * NS, -NS, -1, 0, 1, NS, 36 * NS, 45 * NS, 86_400 * NS] {
-            pl.push(days1900(y, 1, 1) as i128 * 86_400 * NS + o);
+            pl.push(days1900(y, m, 1) as i128 * 86_400 * NS + o);
         }
     }
     pl.sort();
@@ -517,6 +611,9 @@ pub fn replay(check: &str, a: &[String], out: &mut Local) -> bool {
     let leap = load();
     match check {
         "c06.table" => j_table(pu64(&a[0]), &leap, out),
+        "c06.float_ctor" => {
+            j_scale_float_ctor("c06.float_ctor", scale_from(&a[0]), a[1].parse().unwrap(), pf64(&a[2]), out);
+        }
         "c06.utc_to_tai" | "c06.round_trip" => j_utc(p128(&a[0]), &leap, out),
         "c06.tai_to_utc" => j_tai(p128(&a[0]), &leap, out),
         "c06.accessor" => j_accessor(p128(&a[0]), &leap, out),
